@@ -180,6 +180,8 @@ def run(ctx, rep, tier):
     _bodyless_clauses(ctx, rep, tier)
     from .shared import delegate
     delegate(ctx, rep, tier, "C07", ("C07.a",), "C08.g", "clause patterns built from character classes: the class algebra (split / union / invert) the merged decider is built from is exact")
+    from . import structs
+    structs.check_cull_policy(ctx, rep, "C08.i")       # what follows a clause pattern takes over only what the decider's finish state does not name itself (its explicit exclusions stay)
     # C08.h (F-114) - stated here directly (C01 delegates into this module: a delegate back would be circular)
     rep.rule("C08.h", "the leading actions of a clause whose body can match nothing wait on an action step where the decider goes on matching from the pattern's finish state")
     okh = ctx.model.has("DFA.append_after", "entered_otherwise = [x for x in sub_states if x is self.starting_state or x in jumped_to or any((not t.error_handling for t in x.transitions))]") and \
